@@ -5,6 +5,8 @@ package main
 
 import (
 	"fmt"
+	"os"
+	"regexp"
 	"go/token"
 	"go/types"
 	"sort"
@@ -109,7 +111,12 @@ func (ex *Exec) callSiteClauses(name string, k int, when string, args []TV, rets
 			}
 			tv = env.defaultType(tv)
 			n := vc.define("ghost."+c.Name, vc.sortOf(tv.Ty), tv.T)
-			ex.ghosts[c.Name] = TV{T: n, Ty: tv.Ty}
+			if ex.cur.ghosts == nil {
+				ex.cur.ghosts = map[string]TV{}
+			} else {
+				ex.cur.ghosts = cloneGhosts(ex.cur.ghosts)
+			}
+			ex.cur.ghosts[c.Name] = TV{T: n, Ty: tv.Ty}
 			continue
 		}
 		if !hasProp(c, ex.prop) {
@@ -400,7 +407,31 @@ func (ex *Exec) applyContract(v ssa.Value, fc *FuncContract, cname string, names
 			envPost.vars["result"] = r
 		}
 	}
+	ghostNames := map[string]bool{}
+	for _, c := range fc.Clauses {
+		if c.Kind == "ghost" {
+			ghostNames[c.Name] = true
+		}
+	}
 	for _, c := range fc.clauses("ensures") {
+		// a callee postcondition is used when it is untagged, assumed, or tagged
+		// with the property being checked (other properties' clauses only add
+		// weight to the query; leaving assumptions out is always sound)
+		if os.Getenv("ZVC_SAMEPROP") != "" && len(c.Props) > 0 && !c.Assumed && !hasProp(c, ex.prop) {
+			continue
+		}
+		if len(ghostNames) > 0 {
+			// postconditions phrased over the callee's ghost state cannot be used by callers
+			usesGhost := false
+			for _, id := range identRe.FindAllString(c.Expr, -1) {
+				if ghostNames[id] {
+					usesGhost = true
+				}
+			}
+			if usesGhost {
+				continue
+			}
+		}
 		t, err := envPost.Bool(c.Expr)
 		if err != nil {
 			vc.ctx.contractError(fc, c, err)
@@ -412,6 +443,8 @@ func (ex *Exec) applyContract(v ssa.Value, fc *FuncContract, cname string, names
 		vc.calledContracts[cname]++
 	}
 }
+
+var identRe = regexp.MustCompile(`[A-Za-z_][A-Za-z0-9_]*`)
 
 var pureUFPkgs = map[string]bool{"strings": true, "strconv": true, "unicode": true, "unicode/utf8": true, "math": true, "bytes": true, "path": true, "path/filepath": true, "sort": false}
 
